@@ -41,16 +41,26 @@ def conj_table(ctx, R, key, f, atoms, good, targets, start=0, what="", need_all_
     names, tab = W.table(targets, start=start)
     bad = []
     hit = False
+    missed = []
     for k, reach in tab.items():
         allgood = all(k[i] in good[i] for i in range(len(k)))
         if allgood:
-            hit = hit or (set(targets) <= reach if need_all_targets else bool(reach))
+            h = (set(targets) <= reach if need_all_targets else bool(reach))
+            hit = hit or h
+            if not h:
+                missed.append(dict(zip(names, k)))
         elif reach:
             bad.append((dict(zip(names, k)), sorted(reach)))
-    ctx.ob(R, key, not bad and hit,
-           "%s: reachable only when every check passed (%d valuations over %s)" % (what, len(tab), names) if not bad and hit else
-           ("%s reachable although a check failed: %s" % (what, bad[:2]) if bad else "%s unreachable even when all checks pass (shape not recognised)" % what), f.loc())
-    return not bad and hit
+    # exactness: the action must be reachable on EVERY row where all checks pass (a boundary moved from >= to > rejects
+    # valid input: e.g. a certificate carrying exactly the quorum). Only reported when some good row is reached, so that
+    # an unrecognised shape is still reported as such.
+    incomplete = hit and bool(missed)
+    ctx.ob(R, key, not bad and hit and not incomplete,
+           "%s: reachable exactly when every check passed (%d valuations over %s)" % (what, len(tab), names) if not bad and hit and not incomplete else
+           ("%s reachable although a check failed: %s" % (what, bad[:2]) if bad else
+            ("%s is refused although every check passes for %s (a boundary is stricter than specified)" % (what, missed[:2]) if incomplete else
+             "%s unreachable even when all checks pass (shape not recognised)" % what)), f.loc())
+    return not bad and hit and not incomplete
 
 
 def returns_only_after(ctx, f, suffixes):
